@@ -1348,6 +1348,8 @@ class LogixDriver(CIPDriver):
                 bool_elements = None if implicit_element or elements == 1 else elements
                 total_size = (bit or 0) + elements
                 elements = (total_size // 32) + (1 if total_size % 32 else 0)
+                if elements > 0xFFFF:
+                    raise RequestError(f"Array index out of range: {idx}")
 
             return {
                 "user_tag": request_tag,  # tag name from user, without element request
